@@ -134,6 +134,15 @@ Proof.
   - apply fold_Strong; [|exact Hs]. intros s0 t Hs0. apply Strong_add_log; [discriminate|exact Hs0].
 Qed.
 
+Lemma pre_phase_Strong s : Strong T s -> Strong T (pre_phase T s).
+Proof.
+  unfold pre_phase. apply fold_Strong. intros s0 b Hs0.
+  destruct (is_async (spec_of T b)) as [[tmo sc]|]; [|exact Hs0].
+  destruct sc; try exact Hs0. destruct (d =? 0); [|exact Hs0]. cbv zeta.
+  pose proof (proj1 (fatal_mutual (fuel_of T) s0 b) Hs0) as W.
+  destruct (iexn _); [apply Strong_set_err|exact W].
+Qed.
+
 Lemma Strong0 : Strong T istate0.
 Proof. right. intros b []. Qed.
 
@@ -145,10 +154,10 @@ Theorem failing_regular_is_fatal s t :
   forall b, In (CRegular b) (ilog s) -> is_regular (spec_of T b) <> GRaises.
 Proof.
   unfold run_init. cbv zeta.
-  pose proof (sync_pass_Strong _ Strong0) as H1.
-  destruct (ierr (sync_pass T istate0)) eqn:E1; [intros H; inversion H|].
+  pose proof (sync_pass_Strong _ (pre_phase_Strong _ Strong0)) as H1.
+  destruct (ierr (sync_pass T (pre_phase T istate0))) eqn:E1; [intros H; inversion H|].
   pose proof (async_phase_Strong _ H1) as H2.
-  destruct (async_phase T (sync_pass T istate0)) as [s2 tend]. simpl in H2.
+  destruct (async_phase T (sync_pass T (pre_phase T istate0))) as [s2 tend]. simpl in H2.
   destruct (ierr s2) eqn:E2; [intros H; inversion H|].
   pose proof (sync_pass_Strong _ H2) as H3.
   intros H. injection H as Es Et Eok. subst s.
@@ -162,8 +171,8 @@ Theorem success_all_initialised s t :
   run_init T = (s, t, true) -> forall b, (b < List.length T)%nat -> inited s b = true.
 Proof.
   unfold run_init. cbv zeta.
-  destruct (ierr (sync_pass T istate0)); [intros H; inversion H|].
-  destruct (async_phase T (sync_pass T istate0)) as [s2 tend].
+  destruct (ierr (sync_pass T (pre_phase T istate0))); [intros H; inversion H|].
+  destruct (async_phase T (sync_pass T (pre_phase T istate0))) as [s2 tend].
   destruct (ierr s2); [intros H; inversion H|].
   intros H. injection H as Es Et Eok. subst s.
   apply andb_true_iff in Eok as [_ Eall]. unfold all_inited in Eall.
